@@ -2,6 +2,7 @@
 //!
 //! usage: vcheck <ID> [--tier quick|thorough] [--seed N] [--root /verif] [--replay file]
 
+pub mod big;
 pub mod checks;
 pub mod drive;
 pub mod gen;
